@@ -638,6 +638,7 @@ pub fn dump(what: &str) {
                 println!("{}\t{}", u.name(), u.symbol());
             }
         }
+        "c19" => crate::c19::dump_tables(),
         _ => {
             eprintln!("unknown dump {what}");
             std::process::exit(2);
